@@ -863,6 +863,18 @@ func c12EndAlphabet() []Op {
 		mkPrintf("%2d|%-1s|%.1f|%01.1x", 5, "pad", 3.14159, 255),
 		mkPrintf("%U|%#U|%c|%e", 0x1F600, 0x1F600, 0x1F600, 1e300),
 		mkPrintf("%U|%#U|%c|%e", 0x41, 0x41, 0x41, 1.5),
+		// per-call parser and flag state a recycled printer may keep: explicit indexes (reordered), bad indexes
+		// (goodArgNum), stars, then formats WITHOUT verbs, with surplus or missing operands
+		mkPrintf("%[2]d-%[1]d", 1, 2),
+		mkPrintf("%[3]*.[2]*[1]f|%[1]d", 12.0, 2, 6),
+		mkPrintf("%[9]d|%[x]d|%d", 1),
+		mkPrintf("request done", 42, "secret"),
+		mkPrintf("no verbs\n"),
+		mkPrintf("%d %d %d", 1),
+		mkPrintf("%!|%z|%", 1),
+		mkPrintf("%+v|%#v|% d|%-5d|%05d|%x", structT{1, "b", nil}, []int{1}, 5, 5, 5, "hi"),
+		mkPrintf("%v|%d", "plain", 7),
+		mkPrint("a", 1, 2, "b", "c", 3.5, nil, errT{"e"}),
 	)
 	return al
 }
